@@ -664,7 +664,11 @@ impl Recognizer for TimestampRecognizer {
         match input {
             ReadEvent::Number(NumericValue::Int(n)) => {
                 let result = check_parse_time_result(
-                    Utc.timestamp_opt(n / 1_000_000, (n % 1_000_000) as u32),
+                    // The value is in microseconds; chrono wants seconds and *nanoseconds* (both non-negative).
+                    Utc.timestamp_opt(
+                        n.div_euclid(1_000_000),
+                        (n.rem_euclid(1_000_000) * 1_000) as u32,
+                    ),
                     &n,
                 )
                 .map(Timestamp::from)
@@ -674,7 +678,7 @@ impl Recognizer for TimestampRecognizer {
             }
             ReadEvent::Number(NumericValue::UInt(n)) => {
                 let result = check_parse_time_result(
-                    Utc.timestamp_opt((n / 1_000_000) as i64, (n % 1_000_000) as u32),
+                    Utc.timestamp_opt((n / 1_000_000) as i64, ((n % 1_000_000) * 1_000) as u32),
                     &n,
                 )
                 .map(Timestamp::from)
